@@ -8,7 +8,8 @@ MCVars == { [name |-> "db", guid |-> "sec", attrs |-> NV \cup {"TIME_BASED_AUTHE
             [name |-> "OsIndications", guid |-> "global", attrs |-> NV, secure |-> FALSE],
             \* a different variable whose name differs from the previous one only in letter case (variable names are case-sensitive)
             [name |-> "osindications", guid |-> "global", attrs |-> NV, secure |-> FALSE] }
-MCVals == { [id |-> "empty", len |-> 0], [id |-> "d1", len |-> 76], [id |-> "d3", len |-> 172], [id |-> "dc", len |-> 744], [id |-> "d1c", len |-> 820],
+MCVals == { [id |-> "empty", len |-> 0], [id |-> "d1", len |-> 76], [id |-> "d1b", len |-> 76],      \* d1b: another value of exactly the same length as d1
+            [id |-> "d3", len |-> 172], [id |-> "dc", len |-> 744], [id |-> "d1c", len |-> 820],
             [id |-> "huge", len |-> 70000] }     \* more than 64 KiB
 ApiStep == \/ \E v \in Vars, val \in Vals, s \in BOOLEAN : WriteBegin(v, val, s)
            \/ \E v \in Vars : Read(v, v.attrs)
